@@ -109,6 +109,43 @@ def first_param(fn):
     return ps[0]
 
 
+def const_value(idx, mod, cls, node, depth=0):
+    """value of a constant expression: literal, module-level or class-level constant name (followed through imports),
+    Cls.NAME / self.NAME / cls.NAME, concatenation and simple arithmetic of those; AnalysisError when not constant"""
+    if depth > 8:
+        raise AnalysisError('%s:%d constant expression too deep' % (mod.rel, getattr(node, 'lineno', 0)))
+    try:
+        return ast.literal_eval(node)
+    except (ValueError, SyntaxError, TypeError):
+        pass
+    if isinstance(node, ast.Name):
+        r = idx.resolve(mod, node.id)
+        if r and r[0] == 'const':
+            return const_value(idx, r[1], None, r[2], depth + 1)
+    if isinstance(node, ast.Attribute) and isinstance(node.value, ast.Name):
+        owner = None
+        if node.value.id in ('self', 'cls') and cls is not None:
+            owner = cls
+        else:
+            r = idx.resolve(mod, node.value.id)
+            if r and r[0] == 'class':
+                owner = r[1]
+        if owner is not None:
+            k, v = idx.class_attr(owner, node.attr)
+            if v is not None:
+                return const_value(idx, k.mod, k, v, depth + 1)
+    if isinstance(node, ast.BinOp) and isinstance(node.op, (ast.Add, ast.Sub, ast.Mult)):
+        a = const_value(idx, mod, cls, node.left, depth + 1)
+        b = const_value(idx, mod, cls, node.right, depth + 1)
+        try:
+            return a + b if isinstance(node.op, ast.Add) else a - b if isinstance(node.op, ast.Sub) else a * b
+        except TypeError:
+            pass
+    if isinstance(node, ast.JoinedStr) and all(isinstance(p, ast.Constant) for p in node.values):
+        return ''.join(p.value for p in node.values)
+    raise AnalysisError('%s:%d not a constant expression: %s' % (mod.rel, getattr(node, 'lineno', 0), ast.unparse(node)))
+
+
 class Ctx:
     """everything the rules share: index, modules, classes"""
 
@@ -636,6 +673,11 @@ class PEv:
             r = self.cx.idx.resolve(self.mod, e.id)
             if r and r[0] == 'class':
                 return PClass(r[1])
+            if r and r[0] == 'const':
+                key = id(r[2])
+                if key not in _CONST_CACHE:
+                    _CONST_CACHE[key] = PEv(self.cx, r[1], self.hooks, self.depth + 1).ev(r[2], {})
+                return _CONST_CACHE[key]
             self.err(e, 'name not resolved')
         if isinstance(e, ast.Tuple):
             return tuple(self.ev(x, env) for x in e.elts)
@@ -1864,7 +1906,7 @@ def rule_time_plumbing(cx, chk):
             if not (isinstance(v, ast.Attribute) and isinstance(v.value, ast.Call) and chain(v.value.func) == 'getattr'):
                 raise AnalysisError('%s:%d Timex.%s getter: idiom getattr(self, K).<attr> not recognised'
                                     % (tcls.mod.rel, r.lineno, name))
-            keys.add(const_str(v.value.args[1]))
+            keys.add(const_value(cx.idx, tcls.mod, tcls, v.value.args[1]))
             chk.judge(v.attr == name, 'C14.timeprop', path, 'Timex.%s getter' % name, 'reads .%s' % v.attr,
                       'the %s property returns the .%s of the shared Time object' % (name, v.attr), r.lineno)
         # setter
@@ -1873,7 +1915,7 @@ def rule_time_plumbing(cx, chk):
         for c in calls_in(setter):
             ch = chain(c.func)
             if ch in ('getattr', 'setattr', 'hasattr', 'delattr') and len(c.args) >= 2:
-                keys.add(const_str(c.args[1]))
+                keys.add(const_value(cx.idx, tcls.mod, tcls, c.args[1]))
             if ch == 'Time':
                 made = True
                 if c.keywords:
@@ -1904,7 +1946,8 @@ def rule_time_plumbing(cx, chk):
                           'the %s setter writes .%s of the shared Time object' % (name, st.targets[0].attr), st.lineno)
         if not wrote:
             raise AnalysisError('Timex.%s setter: update of an existing Time object not recognised' % name)
-    chk.judge(len(keys) == 1 and None not in keys, 'C14.timeprop', path, 'Timex hour/minute/second backing attribute',
+    chk.judge(len(keys) == 1 and all(isinstance(k, str) for k in keys), 'C14.timeprop', path,
+              'Timex hour/minute/second backing attribute',
               ','.join(sorted(str(k) for k in keys)),
               'the three properties do not share one backing attribute: %s' % sorted(str(k) for k in keys))
     # fixed_format_number pads on the left with zeros to the given width
@@ -2179,6 +2222,8 @@ class Interp:
                 return ClassRef(r[1])
             if r and r[0] == 'module':
                 return ModRef(r[1])
+            if r and r[0] == 'const':
+                return const_value(self.idx, r[1], None, r[2])
             self.err(mod, e, 'name not resolved')
         if isinstance(e, ast.Attribute):
             b = self.ev(e.value, env, mod)
